@@ -65,7 +65,8 @@ func drawScript(t *rapid.T, tag byte, withDialect bool, key *[32]byte, maxSeg in
 	n := rapid.IntRange(0, maxSeg).Draw(t, "nseg")
 	var out []seg
 	idx := 0
-	ts := uint64(5000000)
+	// every sender signs with its own clock: the links' timestamps are minutes apart from each other
+	ts := uint64(5000000) + uint64(tag)*40000000
 	for i := 0; i < n; i++ {
 		kinds := []string{"valid-raw", "valid-raw", "junk"}
 		if withDialect {
